@@ -95,12 +95,19 @@ fn pool(rng: &mut Rng, s2: usize, norm: bool) -> Vec<HV> {
 }
 
 fn build_any<T: HashLike>(v: &HV, how: u64) -> T {
-    match how % 5 {
+    match how % 6 {
         0 => T::build(v),
         1 => T::parse_bytes(v.text().as_bytes()).expect("valid text refused"),
         2 => T::build_dirty(v),
+        5 => {
+            // Clone::clone_from onto an object that holds a longer, different value
+            let full = HV { log: 29, bh1: (0..64).map(|i| (63 - i) as u8).collect(), bh2: (0..T::S2).map(|i| ((i * 5) % 64) as u8 | 1).collect() };
+            let mut d = T::build(&full);
+            d.clone_from(&T::build(v));
+            d
+        }
         // through a conversion into a destination that still holds a longer value
-        _ => T::build_conv(v, how / 5).unwrap_or_else(|| T::build_dirty(v)),
+        _ => T::build_conv(v, how / 6).unwrap_or_else(|| T::build_dirty(v)),
     }
 }
 
